@@ -6,6 +6,8 @@ TRUST = "Trusted: go/ssa front end, the govc VC generator, SMT solvers and the p
 CHECKS = {
  "C17": ("Proof over the real code of creds.(Creds).buffer: the buffer starts with exactly the two capability lines, nothing is written outside the per-item step, and every completed step appends exactly key=value LF for a value free of LF, NUL and (under protection) CR; an unsafe value returns an error and no buffer.",
          "bytes.Buffer.Write appends its argument (assumed); strings.Contains is an uninterpreted predicate; `git credential` itself is outside the proof."),
+ "C10": ("Proof over lfshttp.newRequestForRetry (the request built for a redirect carries Authorization only if URL.Host is unchanged; https is never turned into http; header keys stay canonical), (*Client).DoWithRedirect (carries that to its result and bounds the chain), the recursion measures of (*lfshttp.Client).doWithRedirects and of the lfsapi doWithAuth/doWithCreds cycle (every turn extends the chain, which is cut at three requests), lfsapi.getCredURLForAPI (credentials are requested for the request's own scheme and host:port) and setRequestAuthFromURL (userinfo used only for the same origin).",
+         "net/http and net/url are assumed contracts (NewRequest returns a fresh request with an empty header, Header.Set stores under the canonical key); canonical header keys of incoming requests are an assumed type invariant; tracing/handleResponse/ExtraHeadersFor are assumed frames; getCreds' use of the helper result and credential helper programs are outside the proof."),
  "C11": ("Proof over config.readGitConfig (both sinks: the value map and the extension table), keyIsUnsafe/safeKeys, (*GitFetcher).Get and git.(*Configuration).Sources/FileSource/RevisionSource/Source/ParseConfigLines: from a source restricted to safe keys only keys on the documented allow-list reach the value map and no extension property changes; values are appended in source order, Git's own configuration is the last source and Get returns the last value. Two obligations (lfs.extension.<n>.priority) are recorded known findings.",
          "the output format of `git config -l`; the subprocess boundary (gitConfig, IsBare) is an assumed contract; key case-folding is an uninterpreted function."),
 }
